@@ -68,3 +68,49 @@ Inductive value : Type :=
 Definition op_table : Type := list (Z * (string * string)).
 Definition attr_table : Type := list (list Z * ty).        (* attribute name as bytes *)
 Definition obj_table : Type := list (Z * string).
+
+(** boolean equalities (lookups, correspondence rows) *)
+Fixpoint zlist_eqb_s (a b : list Z) : bool :=
+  match a, b with
+  | [], [] => true
+  | x :: xs, y :: ys => (x =? y) && zlist_eqb_s xs ys
+  | _, _ => false
+  end.
+
+Definition kind_eqb (a b : kind) : bool :=
+  match a, b with
+  | KInt8, KInt8 | KInt16, KInt16 | KInt32, KInt32 | KInt64, KInt64
+  | KUint8, KUint8 | KUint16, KUint16 | KUint32, KUint32 | KUint64, KUint64
+  | KBool, KBool | KString, KString | KBytes, KBytes | KTime, KTime
+  | KDuration, KDuration | KBigInt, KBigInt => true
+  | KEnum x, KEnum y | KMask x, KMask y => x =? y
+  | _, _ => false
+  end.
+
+Fixpoint ty_eqb (a b : ty) : bool :=
+  match a, b with
+  | TScalar x, TScalar y => kind_eqb x y
+  | TPtr x, TPtr y | TSlice x, TSlice y => ty_eqb x y
+  | TNamed x, TNamed y | TIface x, TIface y => String.eqb x y
+  | _, _ => false
+  end.
+
+Fixpoint value_eqb (a b : value) : bool :=
+  let go := (fix go (x y : list value) : bool :=
+               match x, y with
+               | [], [] => true
+               | p :: ps, q :: qs => value_eqb p q && go ps qs
+               | _, _ => false
+               end) in
+  match a, b with
+  | VInt x, VInt y => x =? y
+  | VBool x, VBool y => Bool.eqb x y
+  | VStr x, VStr y => zlist_eqb_s x y
+  | VNil, VNil => true
+  | VPtr x, VPtr y => value_eqb x y
+  | VList x, VList y => go x y
+  | VStruct n x, VStruct m y => String.eqb n m && go x y
+  | VIface t x, VIface u y => ty_eqb t u && value_eqb x y
+  | VTree x, VTree y => item_eqb x y
+  | _, _ => false
+  end.
